@@ -6,4 +6,5 @@ export CARGO_NET_OFFLINE=true
 ( cd lean && lake build NextestModel driver 2>&1 | tail -3 )
 cp /repo/Cargo.lock harness/Cargo.lock
 ( cd harness && cargo build --offline --bins 2>&1 | tail -3 )
+( cd e2e/ws && CARGO_TARGET_DIR=/verif/.build/e2e-target cargo build --offline --tests --bins 2>&1 | tail -1 )
 echo "setup done"
